@@ -53,7 +53,7 @@ checks.update({
 # what the later rounds of seeded changes added to each check (DESIGN.md section 9)
 STATE = {
  "C01": " Also: comments in the random layout, multi-statement queries, customised Language clones, texts of up to 120000 elements, same-checksum pairs of regexes / names / strings, a probe process that assigns time.Local between two parses of tz('Local').",
- "C02": " Also: about 900 frontier texts judged if accepted, look-alike name pairs printed in both orders, prints directly after a 70 KB - 1.4 MB print.",
+ "C02": " Also: about 900 frontier texts judged if accepted, look-alike name pairs printed in both orders, prints directly after a 70 KB - 1.4 MB print, every reserved word in three casings as a quoted name in every name slot.",
  "C03": " Also: chains of up to 260 operators and deep left spines, caller edits of sign factors before the run, a parser reused after 300000 failed expressions, print / edit in place / print again, a print directly after an aborted print.",
  "C04": " Also: bytes allocated for a text of n against 4n bytes (21 families), long histories of distinct zones / regexes / names, 70000 statements through one parser, results staying usable under later calls on the same parser.",
  "C05": " Also: readers that deliver the text in pieces, with EOF, or followed by a persistent error; error positions behind characters outside the language through both entry points; errors after another parse against a parser made for the text alone.",
@@ -64,11 +64,11 @@ STATE = {
  "C10": " Also: wall-clock literals next to offset changes in six zones, stacked and zone-less valuers, time literals a caller converted and changed beforehand, hand-built ranges through TimeRange.Intersect.",
  "C11": " Also: multi-predicate conditions, whole sources with anchors inside alternations, UTF-8 width boundaries, limit sums, the caller editing the literals of a rewritten condition.",
  "C12": " Also: arithmetic subquery columns incl. unsigned, mappers that hand out cached maps, names and regexes whose joined texts coincide, in both orders.",
- "C13": " Also: random operation sequences, 1800 distinct-value statements in one process, a stream read by one parser that carries on after errors.",
+ "C13": " Also: random operation sequences, 1800 distinct-value statements in one process, a stream read by one parser that carries on after errors, a schema per measurement with empty sets handed out as nil maps.",
  "C14": " Also: operations before the clone, interleaved schedules with each side compared to its own operations run alone, emptied lists with capacity, hand-built INTO targets, derived statements of receivers that were asked before, a probe process that clones TZ('Local') before local time was used.",
  "C15": " Also: blank-like separators, split literals, bound user names, look-alike keyword letters, clause words inside quoted names / strings / regexes / comments (four open findings), same-checksum text and literal pairs, a print after a rejected mistyped variant.",
- "C16": " Also: 33 comment shapes, CR / LF combinations read in pieces, queries of up to 35001 statements, a zone spelled in two letter cases in one query.",
- "C17": " Also: fresh processes whose first library calls are made by 24 goroutines at once, hand-built INTO targets in shared ASTs, results of ScanDelimited kept across later scans.",
+ "C16": " Also: 38 comment shapes (line comments ended by LF, CRLF and a lone CR), CR / LF combinations read in pieces, queries of up to 35001 statements, a zone spelled in two letter cases in one query.",
+ "C17": " Also: fresh processes whose first library calls are made by 24 goroutines at once, hand-built INTO targets in shared ASTs, results of ScanDelimited kept across later scans, string time bounds resolved in five named zones concurrently.",
  "C18": " Also: windows carried in locations whose offsets have seconds, edits between windows, own-output-shaped conditions with inner bounds, an ordinary call directly after a refused one, same-checksum condition pairs.",
  "C19": " Also: INTO at every depth, in-place edits between calls, the caller overwriting the returned list, 1-1000 sources, reserved system names, a call while a source slot is nil followed by the repaired statement.",
  "C20": " Also: lists of 60-140 fields, renames and flag flips in place, blank time aliases, statements built with shared nodes, statements expanded by RewriteFields and edited afterwards, a call directly after an aborted call.",
